@@ -574,6 +574,16 @@ pub fn gen_and_run(seed: u64, index: u64, scratch: &str, cfg: &GenCfg, fenced: &
         if rng.chance(1, 4) {
             entries.push(SrcFile { path: "emptydir/".into(), text: String::new() });
         }
+        // somebody's files inside a directory that will hold mirrored outputs
+        if rng.chance(1, 2) {
+            if let Some(f) = cur_files.iter().find(|f| f.path.contains('/')) {
+                let m = mirrored(&f.path, &sc.layout);
+                if let Some(d) = std::path::Path::new(&m).parent().map(|d| d.to_string_lossy().into_owned()).filter(|d| !d.is_empty()) {
+                    entries.push(SrcFile { path: format!("{d}/__init__.py"), text: "# hand-written\n".into() });
+                    entries.push(SrcFile { path: format!("{d}/data.json"), text: "{}\n".into() });
+                }
+            }
+        }
         push(&mut sc, &mut h, Op::Prepopulate { entries });
     }
     let t = transpile(&mut rng, &h, cfg.cli_permille);
@@ -757,7 +767,10 @@ pub fn gen_and_run(seed: u64, index: u64, scratch: &str, cfg: &GenCfg, fenced: &
     if !cur_files.is_empty() && rng.chance(1, 6) {
         let f = rng.pick(&cur_files).clone();
         let m = mirrored(&f.path, &sc.layout);
-        let entry = if rng.chance(1, 2) || !m.contains('/') {
+        let entry = if rng.chance(1, 5) {
+            // the output directory itself is a file
+            SrcFile { path: ".".into(), text: String::new() }
+        } else if rng.chance(1, 2) || !m.contains('/') {
             // a directory where the mirrored file must go
             SrcFile { path: format!("{m}/"), text: String::new() }
         } else {
